@@ -14,9 +14,10 @@ rebuild
 DEMO=$OUT/demo.py; [ -f $DEMO ] || DEMO=$(ls $OUT/*demo*.py $OUT/test_*.py 2>/dev/null | head -1)
 run_demo() { case $DEMO in *test_*.py) PYTHONPATH=$WT timeout 1800 $PY -m pytest -q -p no:cacheprovider $DEMO;; *) PYTHONPATH=$WT timeout 1800 $PY $DEMO;; esac; }
 run_demo > $OUT/confirm_demo_with.log 2>&1; W=$?
-git stash -q; rebuild
+# NB: git stash is shared between worktrees of one repository - revert/reapply with the saved diff instead
+git apply -R $OUT/patch.confirmed.diff; rebuild
 run_demo > $OUT/confirm_demo_without.log 2>&1; WO=$?
-git stash pop -q; rebuild
+git apply $OUT/patch.confirmed.diff; rebuild
 PYTHONPATH=$WT $PY -m pytest -q -p no:cacheprovider --timeout=900 --continue-on-collection-errors --junitxml=$OUT/confirm_junit.xml test > $OUT/confirm_suite.log 2>&1
 $PY /verif/tools/compare_baseline.py $OUT/confirm_junit.xml > $OUT/confirm_baseline.txt 2>&1; B=$?
 echo "ID=$ID tag=$TAG demo_with_change_exit=$W demo_without_exit=$WO baseline_cmp_exit=$B touched_c=$TOUCHC" | tee $OUT/confirm_result.txt
